@@ -137,31 +137,77 @@ func r07_2(c *Ctx, r *Report) {
 				}
 			}
 		}
-		checks := map[string]bool{}
-		for _, b := range fn.Blocks {
-			iff, ok := b.Instrs[len(b.Instrs)-1].(*ssa.If)
-			if !ok || alloc == nil {
-				continue
+		construct := "calendar.NewLunar validates month existence and the day range before allocating"
+		if alloc == nil || len(fn.Params) != 6 {
+			r.bad(rule, construct, c.fnPos(fn), "allocation site of Lunar or the six parameters not found (undecided = fail)")
+		} else {
+			// decision table: month found or not, day count 29/30, day 0..31; followed until the allocation
+			var bad []string
+			n := 0
+			for _, exists := range []bool{true, false} {
+				for _, dc := range []int64{29, 30} {
+					for d := int64(-1); d <= 32; d++ {
+						args := []int64{2020, 4, d, 1, 2, 3}
+						problems := map[string]bool{}
+						var leaf leafX
+						leaf = func(fr *evalFrame, v ssa.Value) (interface{}, bool) {
+							if fr.parent == nil {
+								for i, p := range fn.Params {
+									if v == ssa.Value(p) {
+										return args[i], true
+									}
+								}
+							}
+							call, ok := v.(*ssa.Call)
+							if !ok || call.Common().StaticCallee() == nil {
+								return nil, false
+							}
+							arg := func(i int) (interface{}, bool) { return evalWith(fr, call.Common().Args[i], leaf) }
+							switch fname(call.Common().StaticCallee()) {
+							case "calendar.NewLunarYear":
+								if y, ok := arg(0); ok && y == interface{}(args[0]) {
+									return absPtr{"year table", false}, true
+								}
+								problems["the year table of another year is consulted"] = true
+							case "calendar.(*LunarYear).GetMonth":
+								t, ok1 := arg(0)
+								m, ok2 := arg(1)
+								if ok1 && ok2 && t == interface{}(absPtr{"year table", false}) && m == interface{}(args[1]) {
+									return absPtr{"month", !exists}, true
+								}
+								problems["another month is looked up"] = true
+							case "calendar.(*LunarMonth).GetDayCount":
+								if t, ok := arg(0); ok {
+									if ptr, isP := t.(absPtr); isP && ptr.tag == "month" {
+										if ptr.isNil {
+											problems["the day count of a month that was not found is read"] = true
+											return nil, false
+										}
+										return dc, true
+									}
+								}
+							}
+							return nil, false
+						}
+						ev := &evaluator{inline: inlineLibrary, leaf: leaf}
+						_, outcome := ev.run(fn, nil, nil, nil, func(b *ssa.BasicBlock) bool { return b == alloc.Block() })
+						n++
+						want := "panic"
+						if exists && d >= 1 && d <= dc {
+							want = fmt.Sprintf("stop:%d", alloc.Block().Index)
+						}
+						for k := range problems {
+							bad = append(bad, k)
+						}
+						if outcome != want {
+							bad = append(bad, fmt.Sprintf("month found=%v, %d days, day %d: %s (%s), expected %s", exists, dc, d, map[bool]string{true: "rejected", false: "accepted"}[outcome == "panic"], outcome+" "+ev.fail, map[bool]string{true: "rejection", false: "acceptance"}[want == "panic"]))
+						}
+					}
+				}
 			}
-			_, panics := b.Succs[0].Instrs[len(b.Succs[0].Instrs)-1].(*ssa.Panic)
-			if !panics || !b.Succs[1].Dominates(alloc.Block()) {
-				continue
-			}
-			bo, ok := iff.Cond.(*ssa.BinOp)
-			if !ok {
-				continue
-			}
-			s := symExpr(c, bo, nil, map[ssa.Value]string{}, 0)
-			switch {
-			case strings.Contains(s, "GetMonth(calendar.NewLunarYear(lunarYear),lunarMonth) == nil"):
-				checks["month exists"] = true
-			case s == "(lunarDay < 1)":
-				checks["day >= 1"] = true
-			case strings.HasPrefix(s, "(lunarDay > calendar.(*LunarMonth).GetDayCount("):
-				checks["day <= day count"] = true
-			}
+			sort.Strings(bad)
+			r.check(len(bad) == 0 && n == 136, rule, construct, c.fnPos(fn), fmt.Sprintf("%d cases (month found x day count x day) followed up to the allocation; deviations: %v", n, headList(dedupe(bad), 3)))
 		}
-		r.check(len(checks) == 3, rule, "calendar.NewLunar validates month existence and the day range before allocating", c.fnPos(fn), fmt.Sprintf("dominating rejections found: %v", sortedKeys(checks)))
 	}
 }
 
